@@ -71,6 +71,11 @@ func Ev(kind string, y, a int) {
 	mu.Lock()
 	events = append(events, Event{s, kind, y, a})
 	mu.Unlock()
+	perturb(kind)
+}
+
+// perturb delays the caller with the probability the profile gives to kind.
+func perturb(kind string) {
 	profMu.Lock()
 	p, ok := profile[kind]
 	if !ok {
@@ -202,4 +207,15 @@ func Range(site string, base, end, w, nw, lo, hi int) {
 	rangesMu.Lock()
 	ranges = append(ranges, RangeRec{site, g, base, end, w, nw, lo, hi})
 	rangesMu.Unlock()
+}
+
+// PoolPut is called right after an object went back to a sync.Pool. Under a
+// perturbation profile with the key "pool_put" the caller is delayed here:
+// other goroutines get the object while the caller, if it wrongly keeps
+// using it, is still running.
+func PoolPut(name string) {
+	if !on.Load() {
+		return
+	}
+	perturb("pool_put")
 }
